@@ -47,6 +47,18 @@ def bindings(rnd, n):
         (("inherit", "#000000", False), ("#888888", "initial", False)),
     ]
     out += fixed
+    # pairs a hair ABOVE a threshold (within 3e-7; chromatic colours): asking for more first and for less afterwards, on the same
+    # object or on a new one, must not move the verdict - whatever the first request left behind
+    for tq in (4.5, 4.5, 7.0, 3.0):
+        for _try in range(50):
+            a_, b_ = pairs.razor(rnd, tq, "above")
+            if len(set(a_)) > 1 and len(set(b_)) > 1:
+                break
+        out.append(((pairs.hexs(a_), pairs.hexs(b_), tq == 3.0), (pairs.hexs(b_), pairs.hexs(a_), tq == 3.0)))
+    # rgba written with a blank before the bracket / without brackets (informal, accepted): which branch names the format must
+    # not depend on the iteration order of a set
+    out.append((("rgba (120, 120, 120, 0.9)", "#ffffff", False), ("RGBA 200 30 30 50%", "#ffffff", False)))
+    out.append((("rgb (119, 119, 119)", "#ffffff", False), ("rgba (20, 20, 20, 1)", "#777777", True)))
     while len(out) < n:
         a, b = pairs.near_background(rnd) if rnd.random() < 0.5 else pairs.near_threshold(rnd, rnd.choice((3.0, 4.5, 7.0)), (0.0, 0.35))
         c, d = pairs.near_threshold(rnd, rnd.choice((3.0, 4.5, 7.0)), (0.0, 0.3))
@@ -213,7 +225,7 @@ def main():
     rep.add_model("ApiHist(Depth=3,NP=2) history generator", r, "abstract histories replayed into the implementation")
     hists = [h for h in hists if len(h) >= 2 and any(o[0] in ("fix", "bulk") for o in h[1:])]
     rep.extra["histories_enumerated_by_tlc"] = len(hists)
-    nb = 23 if t == "quick" else 46
+    nb = 29 if t == "quick" else 52
     binds = bindings(rnd, nb)
     nh = 420 if t == "quick" else 9000
     jobs = []
@@ -269,6 +281,8 @@ def main():
             futs.append(ex.submit(reference, kr, tbl, m, v, "0"))
             if n % 3 == 0:
                 futs.append(ex.submit(reference, kr, tbl, m, v, "1"))
+            if n % 3 == 1:
+                futs.append(ex.submit(reference, kr, tbl, m, v, "2"))      # (hash seeds 0 and 1 order some small string sets alike; 2 does not)
         for f in futs:
             f.result()
     rep.extra["fresh_interpreter_references"] = len(_REF)
@@ -278,7 +292,7 @@ def main():
         pre = []
         oid = 100000
         for (kr, m, v) in sorted(needs_of(raw), key=repr):
-            for hs in ("0", "1"):
+            for hs in ("0", "1", "2"):
                 ref = _REF.get((kr, m, v, hs))
                 if ref:
                     oid += 1
